@@ -26,9 +26,9 @@ MEMLIMIT = {"m": 512 * 1024, "r": 32 * 1024}
 COMMON = ("acl PURGE method PURGE\nhttp_access allow PURGE\nmime_table /dev/null\nmemory_cache_shared on\nquick_abort_min -1 KB\n"
           "server_persistent_connections off\ncollapsed_forwarding off\n")
 CONF = {
-    "m": "cache_mem 24 MB\nmaximum_object_size_in_memory 512 KB\nmaximum_object_size 512 KB\n",
-    "r": "cache_mem 8 MB\nmaximum_object_size_in_memory 32 KB\nmaximum_object_size 600 KB\n"
-         "cache_dir rock {dir}/rock 24 max-size=600000 slot-size=4096\n",
+    "m": "cache_mem 256 MB\nmaximum_object_size_in_memory 512 KB\nmaximum_object_size 512 KB\n",
+    "r": "cache_mem 64 MB\nmaximum_object_size_in_memory 32 KB\nmaximum_object_size 600 KB\n"
+         "cache_dir rock {dir}/rock 256 max-size=600000 slot-size=4096\n",
 }
 SETTLE = 0.03
 
